@@ -39,7 +39,12 @@ P = dict(
           "pair of blocks of length <= 4/5 over {a,b,0xE9,0} x every n, memchr for every block x n x character, n = 0 with one-past pointers, memchr/wmemchr with the character present and a count beyond the exact-size block "
           "(size+1, 2*size, PTRDIFF_MAX, SIZE_MAX/2+1, SIZE_MAX-1, SIZE_MAX; wide also divided by sizeof(wchar_t): C11 7.24.5.1 sequential-read rule), memcmp with both pointers into one block (identical, "
           "overlapping and disjoint ranges, every (i, j, n)); "
-          "then seeded random blocks up to 96 elements. cstdlib: all pairs of a 31-43 value boundary grid per type (C's undefined points "
+          "then seeded random blocks up to 96 elements. Constant-evaluation twin (C18_cx_*): every function of the property that is declared constexpr (all str*/wcs*, "
+          "wmemcmp/wmemchr/wmemcpy/wmemmove/wmemset, cctype, cwctype, div/ldiv/lldiv/imaxdiv/abs/labs/llabs; narrow mem* are not constexpr) "
+          "is evaluated on a table - all pairs of strings of length <= 3 over {a,b,0xE9} x counts 0..len+2 and SIZE_MAX, blocks of length <= 3 "
+          "over {a,b,0xE9,0}, every (src,dst,n) in an 8-element buffer x 2 patterns for wmemmove/wmemcpy/wmemset, EOF+0..255 / WEOF+0..0x3FF, "
+          "an 11x11 boundary grid - once by the compiler in a constant expression, once at run time with laundered inputs, and both are "
+          "compared with glibc. cstdlib: all pairs of a 31-43 value boundary grid per type (C's undefined points "
           "excluded) plus seeded random operands. One evaluation = one etl call compared with the glibc call on an identical image. "
           "Distinct = distinct hash of (function/overload, presentation, operands, count); non-trivial = at least one operand non-empty / n != 0 "
           "/ numerator != 0."),
@@ -49,6 +54,9 @@ P = dict(
         Unit("C18_str_wchar_t", "harness/C18_str.cpp", defs=wide(1), flavours={"quick": _Q, "thorough": _T}, shards={"quick": 8, "thorough": 16}),
         Unit("C18_mem_char", "harness/C18_mem.cpp", defs=wide(0), flavours={"quick": _Q, "thorough": _T}, shards={"quick": 4, "thorough": 16}),
         Unit("C18_mem_wchar_t", "harness/C18_mem.cpp", defs=wide(1), flavours={"quick": _Q, "thorough": _T}, shards={"quick": 4, "thorough": 16}),
+        # constant-evaluation twin: every constexpr function of the property, evaluated by the compiler, at run time, and by glibc
+        Unit("C18_cx_char", "harness/C18_cx.cpp", defs=wide(0), flavours={"quick": _Q, "thorough": ["asan-cc", "plain-cc", "O0-cc"]}, shards={"quick": 2, "thorough": 2}),
+        Unit("C18_cx_wchar_t", "harness/C18_cx.cpp", defs=wide(1), flavours={"quick": _Q, "thorough": ["asan-cc", "plain-cc", "O0-cc"]}, shards={"quick": 2, "thorough": 2}),
         # clang: the etl front ends forward strlen/strcmp/strncmp/strchr/memchr/memcmp/memcpy/memmove/wmemcpy/wmemmove to compiler builtins
         Unit("C18_str_char_clang", "harness/C18_str.cpp", defs=wide(0) + _CL, flavours={"quick": [], "thorough": ["clang14-cc"]}, shards={"quick": 8, "thorough": 16}),
         Unit("C18_str_wchar_t_clang", "harness/C18_str.cpp", defs=wide(1) + _CL, flavours={"quick": [], "thorough": ["clang14-cc"]}, shards={"quick": 8, "thorough": 16}),
